@@ -37,5 +37,6 @@ PROPERTY ForeignIndexRefused
 PROPERTY RejectedIsNoop
 PROPERTY OrderKept
 PROPERTY ProjectReplaced
-INVARIANT EmitPath
+INVARIANT EmitPathBounded
+CONSTRAINT Bound
 CHECK_DEADLOCK FALSE
